@@ -119,9 +119,17 @@ def gen(tier, rng, scale):
     # (2) breakpad
     base, _ = apienv._gen_sym("fz.so", "AAAA0000BBBB1111CCCC2222DDDD33330", 1)
     other, _ = apienv._gen_sym("other.so", "0123456789ABCDEF0123456789ABCDEF1", 0)
+    def special_path():
+        # the special FILE-name forms Breakpad files use (hg: / git: / s3: / cargo:), well-formed and degenerate: empty components, components that are or
+        # end in a dash, missing or surplus components, a trailing colon, non-ASCII
+        comp = ["", "-", "a-", "tokio-", "tokio-util-", "tokio-1.6.1", "tokio-util-0.7.0-alpha.1", "-1", "x", "é", "a/b", "github.com-1ecc6299db9ec823", "997f00815e6b", "src/lib.rs", " ", "a:b"]
+        return rng.choice(["hg", "git", "s3", "cargo", "cargo", "Cargo", ""]) + ":" + ":".join(rng.choice(comp) for _ in range(rng.range(0, 5))) + rng.choice(["", "", ":", "/"])
     for ci in range((160 if quick else 4000) * scale):
         lines = base.split("\n")
         pristine = rng.chance(1, 8)
+        if not pristine and rng.chance(1, 3):
+            # every FILE record gets such a name: the lookups below report file names of line records and inline call sites
+            lines = [("FILE %s %s" % (l.split(" ")[1], special_path())) if l.startswith("FILE ") and len(l.split(" ")) > 2 and rng.chance(2, 3) else l for l in lines]
         if not pristine:
             for _ in range(rng.range(1, 6)):
                 i = rng.below(len(lines))
